@@ -74,6 +74,8 @@ class P(Prop):
                     zero_all = rng.random() < 0.1
                     ms = [Fraction(0) if (zero_all or rng.random() < 0.2) else Fraction(rng.randint(1, 400), 8) * tiny for _ in range(n)]
                     ents.append([list(k), ms])
+                if ents and rng.random() < 0.15:
+                    ents.append([list(ents[-1][0]), list(ents[-1][1])])      # the same flow twice (two identical machines)
                 recs.append(ents)
             if series and rng.random() < 0.3 and recs:   # a step in which every record is zero
                 t0 = rng.randrange(n)
@@ -96,7 +98,7 @@ class P(Prop):
                     ops.append(["frac", rng.randrange(live)]); live += 1
                 else:
                     ops.append(["query", rng.randrange(live), rng.choice(["total", "fractions", "emissions"])])
-            out.append({"series": series, "n": n, "recs": recs, "ops": ops})
+            out.append({"series": series, "n": n, "recs": recs, "ops": ops, "share_objects": rng.random() < 0.4})
         return out
 
     def run(self, case):
@@ -105,9 +107,15 @@ class P(Prop):
         env = []
         for ents in case["recs"]:
             fuels = []
+            made = {}      # share_objects: entries with the same kind and masses are ONE Fuel object listed several times
             for k, ms in ents:
                 mass = np.array([float(x) for x in ms]) if series else float(ms[0])
-                fuels.append(mk_fuel(tuple(k), mass))
+                key = (tuple(k), tuple(ms))
+                if case.get("share_objects") and key in made:
+                    fuels.append(made[key])
+                    continue
+                made[key] = mk_fuel(tuple(k), mass)
+                fuels.append(made[key])
             env.append(FuelConsumption(fuels=fuels))
         dumps, queries = [], []
         with np.errstate(all="ignore"):
@@ -206,6 +214,8 @@ class P(Prop):
             t.append("op:" + o[0] + (":" + o[2] if o[0] == "query" else ""))
         if any(len({tuple(k) for k, _ in r}) < len(r) for r in case["recs"]):
             t.append("duplicate-kind-in-one-record")
+        if case.get("share_objects") and any(len({(tuple(k), tuple(ms)) for k, ms in r}) < len(r) for r in case["recs"]):
+            t.append("one-Fuel-object-listed-twice-in-a-record")
         if len({k[2] for r in case["recs"] for k, _ in r}) > 1:
             t.append("mixed-specifications")
         if any(isinstance(q, str) for q in obs.get("queries", [])):
